@@ -326,16 +326,36 @@ func driveNonce(c *ctx) {
 		if !deep {
 			return
 		}
-		rd := deepNewDrbgRFC6979(scFrom(x), scFrom(e))
-		outs := make([]string, reads)
-		for i := range outs {
-			var b [32]byte
-			if _, err := io.ReadFull(rd, b[:]); err != nil {
-				panic(err)
+		// three ways a caller may treat its buffers between reads: one buffer reused untouched; one buffer wiped after every read;
+		// a fresh buffer per read, all of them kept and looked at only at the end.  A generator is not allowed to care.
+		for variant := 0; variant < 3; variant++ {
+			rd := deepNewDrbgRFC6979(scFrom(x), scFrom(e))
+			outs := make([]string, reads)
+			var one [32]byte
+			kept := make([][]byte, reads)
+			for i := range outs {
+				b := one[:]
+				if variant == 2 {
+					b = make([]byte, 32)
+				}
+				if _, err := io.ReadFull(rd, b); err != nil {
+					panic(err)
+				}
+				outs[i] = hx(b)
+				kept[i] = b
+				if variant == 1 {
+					for j := range b {
+						b[j] = 0
+					}
+				}
 			}
-			outs[i] = hx(b[:])
+			if variant == 2 {
+				for i := range kept {
+					outs[i] = hx(kept[i])
+				}
+			}
+			c.E("drbg.Read", "x", h32(x), "e", h32(e), "outs", outs, "vector", vector)
 		}
-		c.E("drbg.Read", "x", h32(x), "e", h32(e), "outs", outs, "vector", vector)
 	}
 	for i := 0; i < c.scale(30, 600); i++ {
 		x := add(randBig(rng, add(bigN, -1)), 1)
